@@ -34,6 +34,8 @@ def judge_scale(j):
     n, e = j["n"], j["edges"]
     if j["destroyed"] != n or j["double"] != 0:
         return ("not-collected", "group-not-fully-destroyed", f"{j['destroyed']} of {n} objects destroyed ({j['double']} twice)")
+    if j.get("count_errors", 0):
+        return ("count-mismatch", "big-count-wrong", f"{j['shape']}: strong/weak counts with {j.get('chords')} handles are not exact ({j['count_errors']} wrong observations)")
     if j["trace_calls"] != 1:
         return ("nonlinear", "repeated-traces", f"{j['trace_calls']} traces for one drop of the last outside handle")
     if j["visits"] > n + 2:
@@ -70,8 +72,9 @@ def plan(tier, seed):
         sc.append(("cliques", n, 128, 0, 0))
         sc.append(("tail", n, 128, 0, 0))
         sc.append(("mstar", n, 128, 0, 0))
-    for m in ([10000, 100000] + ([1000000] if tier == "thorough" else [])):
+    for m in ([300, 10000, 70000, 100000] + ([1000000] if tier == "thorough" else [])):
         sc.append(("multi", 4, 128, m, 0))
+        sc.append(("manyweak", 6, 128, m, 0))
     # odd sizes drawn from the seed
     for _ in range(6 if tier == "quick" else 30):
         sc.append((rng.choice(["ring", "ring+self"]), rng.randrange(1, 50000), rng.choice(stacks), rng.randrange(0, 20000), rng.choice([0, 0, 2, 7])))
